@@ -74,6 +74,9 @@ func c08Run(c *Case) []any {
 			r["headers"] = map[string]any{"X-A": map[string]any{"required": true, "content": map[string]any{"application/json": map[string]any{"schema": intS}}}}
 		case "contentOpt":
 			r["headers"] = map[string]any{"X-A": map[string]any{"content": map[string]any{"application/json": map[string]any{"schema": intS}}}}
+		case "objExp", "objNoExp":
+			r["headers"] = map[string]any{"X-A": map[string]any{"explode": tc.Hd == "objExp", "schema": map[string]any{"type": "object", "required": []any{"a"},
+				"properties": map[string]any{"a": intS, "b": map[string]any{"type": "integer", "maximum": 5}}}}}
 		case "arrMax1":
 			r["headers"] = map[string]any{"X-A": map[string]any{"schema": map[string]any{"type": "array", "items": intS, "maxItems": 1}}}
 		}
